@@ -78,6 +78,22 @@ func genAdversarialRecs(r *vk.RNG, n int) []Rec {
 	} else if r.Bool() {
 		sets[0] = map[string]string{"job": "j", "a": "b", "c": "d"}
 		sets[1] = map[string]string{"job": "j", "a": "bcd"}
+	} else if r.Bool() {
+		// same names, same values, paired differently (defeats keys that combine pairs commutatively)
+		sets[0] = map[string]string{"job": "j", "a": "b", "c": "d"}
+		sets[1] = map[string]string{"job": "j", "a": "d", "c": "b"}
+	} else if r.Bool() {
+		// value of one label equals the name of another and vice versa
+		sets[0] = map[string]string{"job": "j", "a": "c", "c": "a"}
+		sets[1] = map[string]string{"job": "j", "a": "a", "c": "c"}
+	}
+	if nsets >= 4 && r.Bool() {
+		// a permutation family: the same three values spread over the same three names
+		vals := []string{"x", "y", "z"}
+		for i := 2; i < nsets; i++ {
+			p := r.Perm(3)
+			sets[i] = map[string]string{"job": "j", "a": vals[p[0]], "b": vals[p[1]], "c": vals[p[2]]}
+		}
 	}
 	for i := 0; i < n; i++ {
 		l := copyMap(vk.Pick(r, sets))
